@@ -89,12 +89,15 @@ def solve_major_model(
     debug_info = json[gene.name]["major"][len(json[gene.name]["major"])]
 
     # Get the list of _all_ functional mutations present in the sample
-    # and the database (intersection)
-    func_muts = {
-        Mutation(*m)
-        for m in gene.mutations
-        if gene.is_functional(m) and coverage[Mutation(*m)] > 0
-    }
+    # and the database (intersection). The model (variables, constraints) is built
+    # by walking it: keep it sorted so that the result does not depend on hash order
+    func_muts = sorted(
+        {
+            Mutation(*m)
+            for m in gene.mutations
+            if gene.is_functional(m) and coverage[Mutation(*m)] > 0
+        }
+    )
     _print_candidates(gene, allele_dict, coverage, cn_solution, func_muts)
 
     a: Any = 0
@@ -132,7 +135,7 @@ def solve_major_model(
         constraints[m] += v
 
     # Populate constraints of non-variations (i.e. matches with the reference genome)
-    for pos in set(m.pos for m in constraints):
+    for pos in sorted(set(m.pos for m in constraints)):
         ref_m = Mutation(pos, "_")  # type: ignore
         constraints[ref_m] = 0
         VERR[ref_m] = model.addVar(lb=-model.INF, ub=model.INF, name=f"E_{pos}_REF")
@@ -173,7 +176,7 @@ def solve_major_model(
     #   1 == (m chosen by allele) XOR (m novel) == OR(VA[a] if m in a) XOR VNEW[m]
     for m in func_muts:
         VOR = model.addVar(vtype="B", name=f"OR_{m}")
-        m_all = {a for a in alleles if m in alleles[a].func_muts}
+        m_all = [a for a in alleles if m in alleles[a].func_muts]
         model.addConstr(VOR <= model.quicksum(VA[a] for a in m_all), name="COR")
         for a in m_all:
             model.addConstr(VOR >= VA[a], name="COR")
